@@ -314,7 +314,8 @@ func run(c *lib.Ctx) error {
 	maxLen := c.Pick(2, 3)
 	rnd := randomCases(c)
 
-	var rG, rV *lib.TLCResult
+	var rG *lib.TLCResult
+	var pres []string
 	errs := make([]error, 2)
 	lib.Parallel(2, 2, func(i int) {
 		if i == 0 {
@@ -325,12 +326,7 @@ func run(c *lib.Ctx) error {
 			}
 			rG, errs[i] = r, err
 		} else {
-			r, err := c.TLC("GenArithF", lib.TLCRun{Dir: dir, Module: "GenArithF", Workers: 4, Timeout: 14 * time.Minute,
-				Files: map[string][]byte{"cases.ndjson": lib.NDJSON(rnd)}})
-			if err == nil && r.ErrKind != "" {
-				err = lib.Infra("GenArithF failed: %s %s\n%s", r.ErrName, r.Err, r.ErrTrace)
-			}
-			rV, errs[i] = r, err
+			pres, errs[i] = numx.Prescribe(c, "GenArithF", dir, "GenArithF", rnd, c.Pick(2, 4), 14*time.Minute)
 		}
 	})
 	for _, e := range errs {
@@ -369,18 +365,7 @@ func run(c *lib.Ctx) error {
 		"exact_pool": "0 1 -3 2^53+1 +-2^64 +-2^63 2^63-1 1/3 (2^64+1)/2 10^310/3 -1/(3*10^328)", "random_lists": len(rnd)})
 
 	// ---- V
-	got := map[int]bool{}
-	for _, t := range rV.Tagged("OUT") {
-		if len(t) != 2 {
-			return lib.Infra("bad OUT line from GenArithF")
-		}
-		k, _ := t[0].(int64)
-		js, _ := t[1].(string)
-		idx := int(k) - 1
-		if idx < 0 || idx >= len(rnd) || got[idx] {
-			continue
-		}
-		got[idx] = true
+	for idx, js := range pres {
 		fc := rnd[idx]
 		fc.Out = new(foutcome)
 		if err := json.Unmarshal([]byte(js), fc.Out); err != nil {
@@ -392,9 +377,6 @@ func run(c *lib.Ctx) error {
 		if idx < 2 {
 			c.Sample(fc)
 		}
-	}
-	if len(got) != len(rnd) {
-		return lib.Infra("GenArithF prescribed %d of %d recorded lists", len(got), len(rnd))
 	}
 	c.AddTraces(len(rnd))
 	c.Logf("random lists: %d judged", len(rnd))
